@@ -161,6 +161,7 @@ func genDDLCase(t *rapid.T) DDLCase {
 			"unknown-option", "duplicate-option", "option-without-value", "non-numeric-epn", "non-numeric-cache",
 			"missing-columns", "empty-columns", "composite-key", "two-keys", "key-names-no-column",
 			"unique", "default", "duplicate-column", "duplicate-column-case", "unbalanced-quote",
+			"endpoint-without-bucket", "storage-refuses-open",
 		}).Draw(t, "mutation")
 		c.MutArg = rapid.IntRange(0, 100).Draw(t, "mutarg")
 	}
@@ -257,6 +258,8 @@ func (c DDLCase) args(bucket string) ([]string, bool) {
 			return nil, false
 		}
 		cols += ", " + quoteIdent(sw)
+	case "endpoint-without-bucket", "storage-refuses-open":
+		// rendered below / by the runner: every argument parses, the open is what fails
 	case "dangling-comma":
 		cols += ","
 	case "unbalanced-quote":
@@ -266,7 +269,11 @@ func (c DDLCase) args(bucket string) ([]string, bool) {
 	if includeColumns {
 		all = append(all, "columns='"+strings.ReplaceAll(cols, "'", "''")+"'")
 	}
-	all = append(all, "s3_bucket='"+bucket+"'", "s3_endpoint='verif://ddl'")
+	if c.Mutation == "endpoint-without-bucket" {
+		all = append(all, "s3_endpoint='verif://ddl'")
+	} else {
+		all = append(all, "s3_bucket='"+bucket+"'", "s3_endpoint='verif://ddl'")
+	}
 	all = append(all, opts...)
 	// apply the generated order (stable for whatever is left over)
 	out := make([]string, 0, len(all))
@@ -315,7 +322,13 @@ func runDDL(c DDLCase, o *Obs) error {
 		return nil
 	}
 	q := "create virtual table " + tn + " using s3db(" + strings.Join(args, ", ") + ")"
+	if c.Mutation == "storage-refuses-open" {
+		// a definition that parses but whose table cannot be opened (the first request to the
+		// bucket fails) is rejected like any other: nothing registered, nothing written
+		store.Intercept = func(q *fakes3.Req) error { return fakes3.ErrInjected }
+	}
 	err := conn.Exec(q)
+	store.Intercept = nil
 	if c.Mutation != "" {
 		o.Class("invalid:" + c.Mutation)
 		o.NonTrivial = true
@@ -448,7 +461,7 @@ func runDDL(c DDLCase, o *Obs) error {
 func init() { register("TestC20_DDL", runDDL) }
 
 func TestC20_DDL(t *testing.T) {
-	st := newStats(t, "C20", "TestC20_DDL", "argument lists from a grammar of the documented surface: columns='<name> [text|varchar|integer|number|real] [primary key] [not null], ...' or a trailing primary key(<name>), names plain / single-quoted / double-quoted (spaces, keywords, non-ASCII, embedded quote), keyword case and whitespace varied, options entries_per_node / node_cache_entries / readonly / s3_prefix (quoted or not) in any order; half of the cases carry one mutation: unknown / duplicated option, option without value, non-numeric N, missing or empty columns, composite key, two keys, key naming no column, UNIQUE, DEFAULT, duplicate column (exact and case-insensitive), unbalanced quote. Accept: pragma table_info (name, notnull, pk) equals a native table declared from the same specification with proper quoting, rows come back under those names, NULL key refused. Reject: error, table not registered, no PUT/DELETE, and the corrected definition of the same name then succeeds; non-trivial = a name that needs quoting, or any rejected list")
+	st := newStats(t, "C20", "TestC20_DDL", "argument lists from a grammar of the documented surface: columns='<name> [text|varchar|integer|number|real] [primary key] [not null], ...' or a trailing primary key(<name>), names plain / single-quoted / double-quoted (spaces, keywords, non-ASCII, embedded quote), keyword case and whitespace varied, options entries_per_node / node_cache_entries / readonly / s3_prefix (quoted or not) in any order; half of the cases carry one mutation: unknown / duplicated option, option without value, non-numeric N, missing or empty columns, composite key, two keys, key naming no column, UNIQUE, DEFAULT, duplicate column (exact and case-insensitive), unbalanced quote, s3_endpoint without s3_bucket, or a valid list whose open is refused by the bucket (every request fails). Accept: pragma table_info (name, notnull, pk) equals a native table declared from the same specification with proper quoting, rows come back under those names, NULL key refused. Reject: error, table not registered, no PUT/DELETE, and the corrected definition of the same name then succeeds; non-trivial = a name that needs quoting, or any rejected list")
 	checkRapid(t, st, genDDLCase, runDDL)
 }
 
